@@ -63,7 +63,7 @@ func emitEnumTable(name, leanType string, tbl map[int]string, ctors map[int]stri
 func genKeys(repo string) (string, []string, error) {
 	var notes []string
 	var b strings.Builder
-	b.WriteString("import DymVerif.Model.Keys2\nnamespace DymVerif.Gen.Keys\nopen DymVerif DymVerif.Keys\n\n")
+	b.WriteString("import DymVerif.Model.KeysX\nnamespace DymVerif.Gen.Keys\nopen DymVerif DymVerif.Keys\n\n")
 
 	// ---- x/common/types : rollapp packet keys ------------------------------------------
 	common, err := loadFiles(
@@ -290,6 +290,13 @@ func genKeys(repo string) (string, []string, error) {
 		all = append(all, listing(lk, fd)...)
 	}
 	fmt.Fprintf(&b, "/-- statement listings of the lockup iterator constructors and of the storing side -/\ndef lockupIteratorsListing : List String :=\n  %s\n\n", leanStrList(all))
+
+	if err := genKeysColl(repo, &b, &notes); err != nil {
+		return "", nil, err
+	}
+	if err := genKeysX(repo, &b, &notes); err != nil {
+		return "", nil, err
+	}
 
 	b.WriteString("end DymVerif.Gen.Keys\n")
 	return b.String(), notes, nil
